@@ -35,13 +35,15 @@ def main():
             rc = mod.run(ctx)
     except TLCError as e:
         print("MACHINERY: " + str(e)[:4000])
-        rc = 2
+        rc = 1 if ctx.violations else 2
     except SystemExit:
         raise
     except Exception:
         traceback.print_exc()
         print("MACHINERY: adapter crashed")
-        rc = 2
+        rc = 1 if ctx.violations else 2
+        if ctx.violations:
+            print("%s: %d violation(s) (run incomplete)" % (pid, ctx.violations))
     sys.exit(rc)
 
 
